@@ -3,7 +3,7 @@ import ast
 
 from .framework import rule, Ob, fmt_trace, values_in
 from .model import AnalysisError, walk_shallow, dotted
-from .values import V
+from .values import V, C
 
 
 def _chain(v):
@@ -85,7 +85,7 @@ def m1(ctx):
         Ob('M1', 'args_to_key/separator-present', state != 'missing',
            'positional values are followed directly by keyword name/value pairs with no delimiter: f(1, "a", 2) and '
            'f(1, a=2) build the same key', f.loc(), wit if state == 'missing' else None),
-        Ob('M1', 'args_to_key/separator-unforgeable', state is None,
+        Ob('M1', 'args_to_key/separator-unforgeable', state != 'forgeable',
            'the delimiter between positional values and keyword pairs is the literal None, which is itself a legal '
            'argument value: f(1, None, "a") and f(1, a=None) build the same key, so a variadic function is served '
            'another call\'s result', f.loc(), wit if state == 'forgeable' else None),
@@ -214,7 +214,7 @@ def m3(ctx):
                 u = users[0]
                 uval = V('ucall', u.seq) if u.kind == 'UCALL' else V('ret', u.seq, tuple(sorted(t.qual for t in u.d['targets'])))
                 if kind == 'stampede':
-                    okr = rv.k in ('item', 'field') and rv.a[0] == uval
+                    okr = rv.k in ('item', 'field') and rv.a[0] == uval and rv.a[1] in (0, C(0))
                 else:
                     okr = rv == uval
                 if not okr:
